@@ -639,7 +639,90 @@ def oracle_pools(ops, impl, model):
     return out
 
 
+def canonical_pool_key(data_hex):
+    """the pool named by a request's data in its one accepted spelling -> (keyhex, left, right) or None"""
+    try:
+        b = bytes.fromhex(data_hex)
+    except ValueError:
+        return None
+    if len(b) <= 32:
+        if b in (b"s", b"d") or len(b) == 32:
+            l, r = pool_sides(data_hex)
+            if l == "" or r == "":
+                return None
+            return data_hex, l, r
+        return None
+    if b[:32] != bytes(32):
+        return None
+    body = b[32:]
+    if len(body) < 2:
+        return None
+    ll = body[0]
+    if ll >= 251 or 1 + ll >= len(body):
+        return None
+    l = body[1:1 + ll]
+    lr = body[1 + ll]
+    r = body[2 + ll:]
+    if lr != len(r):
+        return None
+    ok = lambda x: x in (b"m", b"s", b"d") or len(x) == 32
+    if not ok(l) or not ok(r) or not (l < r) or l == b"m" or r == b"m":
+        return None
+    return data_hex, l.hex(), r.hex()
+
+
+def oracle_settlement(ops, impl, model):
+    """C15: sealing transforms only the outputs of swap / deposit / withdrawal transactions whose data names a pool
+    canonically; a rewritten swap output is in the other denomination of the named pool; the reserves of a
+    non-builtin pool move by exactly what coins lost and gained; swapping never lowers a pool's product"""
+    out = []
+    for i, kind, t, pre, post, st, txs, orc in walk(ops, impl):
+        if kind != "seal" or pre is None or post is None:
+            continue
+        h = int(pre["h"])
+        rid = orc["r"].get(h)
+        c0, c1 = coins_dict(pre), coins_dict(post)
+        txhashes = {x["hash"]: x for x in txs if x is not None}
+        # (1) kind filter
+        for cid in set(c0) | set(c1):
+            th = cid.split(":")[0]
+            if th == rid:
+                continue
+            if c0.get(cid) == c1.get(cid):
+                continue
+            tx = txhashes.get(th)
+            if tx is None:
+                out.append({"line": i, "op": " ".join(t)[:500], "opkind": "seal", "detail": "sealing changed coin %s which belongs to no transaction of the block" % cid[:24]})
+                continue
+            key = canonical_pool_key(tx["data"])
+            if tx["kind"] not in (K_SWAP, K_DEP, K_WD) or key is None:
+                out.append({"line": i, "op": " ".join(t)[:500], "opkind": "seal",
+                            "detail": "sealing changed output %s of a transaction of kind %#x with data %s that is not a pool request" % (cid[-10:], tx["kind"], tx["data"][:80])})
+                continue
+            _, left, right = key
+            new = c1.get(cid)
+            if tx["kind"] == K_SWAP and new is not None:
+                old = c0.get(cid)
+                if old is None or {old["denom"], new["denom"]} != {left, right}:
+                    out.append({"line": i, "op": " ".join(t)[:500], "opkind": "seal",
+                                "detail": "swap output moved from denomination %s to %s, pool sides are %s / %s" % (old and old["denom"][:12], new["denom"][:12], left[:12], right[:12])})
+        # (2) product of pools that only saw swaps
+        p0 = {e.split("=")[0]: [int(x) for x in e.split("=")[1].split(":")] for e in pre.get("pools", [])}
+        p1 = {e.split("=")[0]: [int(x) for x in e.split("=")[1].split(":")] for e in post.get("pools", [])}
+        kinds_by_pool = collections.defaultdict(set)
+        for tx in txhashes.values():
+            key = canonical_pool_key(tx["data"])
+            if key and tx["kind"] in (K_SWAP, K_DEP, K_WD):
+                kinds_by_pool[key[0]].add(tx["kind"])
+        for k, ks in kinds_by_pool.items():
+            if ks == {K_SWAP} and k in p0 and k in p1 and k not in ("73", "64", ZERO + "016401" + "73"):
+                if p1[k][0] * p1[k][1] < p0[k][0] * p0[k][1]:
+                    out.append({"line": i, "op": " ".join(t)[:500], "opkind": "seal", "detail": "swapping lowered the reserve product of pool %s: %s -> %s" % (k[-8:], p0[k][:2], p1[k][:2])})
+    return out
+
+
 ORACLES.update({
+    "settlement": oracle_settlement,
     "utxo_reference": oracle_utxo_reference,
     "conservation": oracle_conservation,
     "fees": oracle_fees,
